@@ -67,7 +67,7 @@ MANIFEST = dict(
          "'..', Fortran names joined by dots; header names after #include and NAME( after #define are single tokens) so a blank cannot move into or out of a compiler token unnoticed - this coarseness "
          "claim and the comment removal are validated, not proved: Python mirror compared with the Lean driver on every run; in "
          "the thorough tier gcc -fpreprocessed -dD -E -P (per directive / code stretch, and token equality after re-lexing gcc's "
-         "output), same -O1 assembly from the text rebuilt with one blank between any two model tokens (this found and removed two flaws of the first tokenizer: <header> names, function-like macro definitions) where the wrapper compiles "
+         "output), same -O1 -DNDEBUG assembly (NDEBUG: assert() expands __LINE__, which depends on layout, not on tokens) from the text rebuilt with one blank between any two model tokens (this found and removed two flaws of the first tokenizer: <header> names, function-like macro definitions) where the wrapper compiles "
          "here, same gfortran parse tree for the rebuilt Fortran text. Trusted too: the AST classification of "
          "tools/extract_guards.py with its allow-list (each entry justified there; discharged only by the differential runs) and "
          "the assumption that dynamic text spliced into comment templates holds no newline. Version stamping: the stamp is in the "
@@ -955,7 +955,7 @@ def _segments(lines):
 
 
 def _asm(path, incs, cxx, vdir):
-    cmd = ["g++" if cxx else "gcc", "-S", "-w", "-O1", "-o", "-", path] + ["-I" + i for i in incs]
+    cmd = ["g++" if cxx else "gcc", "-S", "-w", "-O1", "-DNDEBUG", "-o", "-", path] + ["-I" + i for i in incs]
     p = subprocess.run(cmd, stdout=subprocess.PIPE, stderr=subprocess.PIPE, text=True, timeout=300, cwd=vdir)
     if p.returncode != 0:
         return None
